@@ -29,6 +29,7 @@ RULE = ("one run = one drawn configuration (1-3 terminals, read-write or read-on
         "configuration digest, n); non-trivial = the cancel landed after the group had "
         "started to talk to its terminals")
 RULE += '; since the 4th session also 3 simulations per configuration in which the cyclic frames are lost from a drawn cycle on and the cancellation is placed 0.2 ns before or after the timer of the 20 ms wait (same loop iteration)'
+RULE += '; also up to 2 simulations per configuration in which the frame with the OPERATIONAL requests is lost, the task is cancelled 0-90 ms later and the bus is watched for another 0.45 s'
 COMPONENTS = {
     "real": ["ebpfcat.ebpfcat.SyncGroupBase.run/map_fmmu", "SyncGroup.start",
              "FastSyncGroup.run", "FastEtherCat.register_sync_group", "Terminal.map_fmmu/"
